@@ -163,6 +163,51 @@ func runTRaw(r *Run, s *TSpec) (*tSummary, error) {
 	if !r.Quick() {
 		limit = 45 * time.Minute
 	}
+	// saved replays and witnesses: a process of their own (a replay that runs into the time
+	// limit ends its process, the remaining files go to the next one)
+	var replaySums []*tSummary
+	{
+		var pending []string
+		if st, err := os.Stat(replayDir); err == nil && !st.IsDir() {
+			pending = []string{replayDir}
+		} else {
+			pending, _ = filepath.Glob(filepath.Join(replayDir, "*.json"))
+			sort.Strings(pending)
+		}
+		for round := 0; len(pending) > 0 && round < 40; round++ {
+			out := filepath.Join(r.Work, fmt.Sprintf("tsum-replay-%d.json", round))
+			ctx, cancel := context.WithTimeout(context.Background(), 5*time.Minute)
+			cmd := exec.CommandContext(ctx, bin, "-test.run", "^"+s.Test+"$", "-test.timeout", "0", "-test.count", "1")
+			cmd.Dir = filepath.Join(r.Work, "pmain")
+			env := append(batch.Env(), "VTOOL_OUT="+out, "VTOOL_TMP="+tmp, "VTOOL_KF="+strings.Join(r.OpenFindings(), ","), "VTOOL_PIGEON="+pigeon,
+				"VTOOL_REPO="+r.Repo, "VTOOL_TIER="+r.Opt.Tier, "VTOOL_REPLAYS="+strings.Join(pending, string(os.PathListSeparator)), "VTOOL_REPLAY_ONLY=1")
+			cmd.Env = append(env, s.Env...)
+			cmd.Run()
+			cancel()
+			b, e := os.ReadFile(out)
+			var sum tSummary
+			if e != nil || json.Unmarshal(b, &sum) != nil || len(sum.Replayed) == 0 {
+				r.Infra("the replay process produced no result for %d saved replays", len(pending))
+				break
+			}
+			replaySums = append(replaySums, &sum)
+			done := map[string]bool{}
+			for _, f := range sum.Replayed {
+				done[f] = true
+			}
+			var rest []string
+			for _, f := range pending {
+				if !done[f] {
+					rest = append(rest, f)
+				}
+			}
+			pending = rest
+		}
+	}
+	if replayOnly {
+		shards = 0
+		sums, logs = nil, nil
+	}
 	for i := 0; i < shards; i++ {
 		wg.Add(1)
 		go func(i int) {
@@ -176,12 +221,7 @@ func runTRaw(r *Run, s *TSpec) (*tSummary, error) {
 			cmd.Dir = filepath.Join(r.Work, "pmain")
 			env := append(batch.Env(), "VTOOL_OUT="+out, "VTOOL_TMP="+tmp, "VTOOL_KF="+strings.Join(r.OpenFindings(), ","), "VTOOL_PIGEON="+pigeon,
 				"VTOOL_REPO="+r.Repo, "VTOOL_TIER="+r.Opt.Tier)
-			if i == 0 || replayOnly {
-				env = append(env, "VTOOL_REPLAYS="+replayDir)
-			}
-			if replayOnly {
-				env = append(env, "VTOOL_REPLAY_ONLY=1")
-			}
+			_ = replayDir
 			cmd.Env = append(env, s.Env...)
 			var buf bytes.Buffer
 			cmd.Stdout, cmd.Stderr = &buf, &buf
@@ -206,6 +246,9 @@ func runTRaw(r *Run, s *TSpec) (*tSummary, error) {
 		if f.Witness != "" {
 			witnessOf[filepath.Join(r.Root, f.Witness)] = f
 		}
+	}
+	for _, rs := range replaySums {
+		sums = append(sums, rs)
 	}
 	for i, sum := range sums {
 		if sum == nil {
@@ -243,6 +286,9 @@ func runTRaw(r *Run, s *TSpec) (*tSummary, error) {
 			// a case that ran into the in-process time limit is decided by the real command with a
 			// generous limit: a hang there (twice) is a violation; if the command terminates, the
 			// in-process time-out was load on the machine and says nothing about the property
+			if s.Confirm != nil && len(r.violations) >= 2 {
+				continue // enough confirmed cases; every further confirmation costs up to 90 s
+			}
 			if s.Confirm != nil {
 				if d := s.Confirm(r, c); d != "" {
 					r.Violation(map[string]any{"property": s.ID, "engine": "exec", "check_kind": "hang", "case": json.RawMessage(c), "diff": d})
